@@ -660,7 +660,7 @@ func guardKeyword(s string) string {
 
 var (
 	vttTagNames    = []string{"b", "i", "u", "c", "lang", "ruby", "rt", "c", "i"}
-	vttClassNames  = []string{"red", "big", "loud", "bg_blue", "x1"}
+	vttClassNames  = []string{"red", "big", "loud", "bg_blue", "x1", "Loud", "bgBlue", "UPPER", "é", "a-b", "大"}
 	vttAnnotations = []string{"en", "fr-FR", "Bob", "Mr. Smith", "言語"}
 	vttVoices      = []string{"Bob", "Esme", "Mr. Smith", "中文", "هذا عربي", "A.B"}
 )
